@@ -65,13 +65,16 @@ PAIRS['components-of-ext-tail'] = (
     'H ::= SEQUENCE { h INTEGER (0..7), ..., x INTEGER (0..300), ..., z BOOLEAN }')
 
 
-for _L in (127, 128, 129, 256):
+for _L in (127, 128, 129, 256, 520):
     # skipping an unknown addition / alternative whose encoding needs a long-form length
+    # (520: two appends, the second one after the PER/UPER encoder has passed its 4096-bit spill point)
+    _big = 'OCTET STRING (SIZE (%d))' % _L if _L < 520 else \
+        'SEQUENCE { o OCTET STRING (SIZE (%d)), n INTEGER (0..255), p BOOLEAN }' % _L
     PAIRS['seq-add-long-%d' % _L] = (TAIL + 'X ::= SEQUENCE { a BOOLEAN, ... }',
-                                     TAIL + 'X ::= SEQUENCE { a BOOLEAN, ..., big OCTET STRING (SIZE (%d)) }' % _L)
+                                     TAIL + 'X ::= SEQUENCE { a BOOLEAN, ..., big %s }' % _big)
     PAIRS['choice-add-long-%d' % _L] = (TAIL + 'X ::= CHOICE { p INTEGER (0..7), ... }',
                                         TAIL + 'X ::= CHOICE { p INTEGER (0..7), ..., big OCTET STRING (SIZE (%d)) }' % _L)
-QUICK_LONG = (128, 129)
+QUICK_LONG = (128, 129, 520)
 
 
 class Proj:
@@ -125,6 +128,8 @@ def jobs_for(tier):
         if '-long-' in p and tier == 'quick' and int(p.rsplit('-', 1)[1]) not in QUICK_LONG:
             continue
         for codec in codecs:
+            if p.endswith('-520') and (codec not in ('per', 'uper') or (tier == 'quick' and 'choice' in p)):
+                continue      # > 4096 bits: the PER/UPER encoder spills its accumulator (big-int buffers)
             for direction in ('v2-under-v1', 'v1-under-v2'):
                 jobs.append(dict(id='%s/%s/%s' % (p, codec, direction), pair=p, codec=codec, direction=direction,
                                  tier=tier, numeric_enums=False))
